@@ -139,6 +139,14 @@ func init() {
 		e.path.symMapOrder = args[0].(bool)
 		return nil
 	}
+	intrinsics[ndPkg+"SymOrderMap"] = func(e *Exec, _ *frame, args []Value) Value {
+		if i, ok := args[0].(Iface); ok {
+			if m, ok := i.v.(*MapObj); ok && m != nil {
+				m.symOrder = true
+			}
+		}
+		return nil
+	}
 	intrinsics[ndPkg+"Exempt"] = func(e *Exec, _ *frame, args []Value) Value {
 		if i, ok := args[0].(Iface); ok {
 			switch v := i.v.(type) {
